@@ -321,6 +321,7 @@ func (s *Statement) Pipeline(task *pod_info.PodInfo, hostname string, updateTask
 func (s *Statement) Allocate(task *pod_info.PodInfo, hostname string) error {
 	verifStmt(s.ssn, s, "op-begin", len(s.operations))
 	node := s.ssn.ClusterInfo.Nodes[hostname]
+	previousResourceClaimInfo := task.ResourceClaimInfo.Clone()
 
 	// Only update status in session
 	job, found := s.ssn.ClusterInfo.PodGroupInfos[task.Job]
@@ -369,7 +370,11 @@ func (s *Statement) Allocate(task *pod_info.PodInfo, hostname string) error {
 			taskInfo: task.Clone(),
 			nextNode: node.Name,
 			reverseOperation: func() error {
-				return s.unallocate(task, node.Name, previousIsVirtualStatus)
+				err := s.unallocate(task, node.Name, previousIsVirtualStatus)
+				// what the task remembered about its claims before it was allocated (the deallocate handlers of
+				// unallocate write into the task's current map)
+				task.ResourceClaimInfo = previousResourceClaimInfo.Clone()
+				return err
 			},
 		},
 	)
@@ -502,6 +507,9 @@ func (s *Statement) unpipeline(
 			})
 		}
 	}
+	// once more after the handlers: the dynamicresources deallocate handler records in the task what is left of its
+	// claims, which is not what the task remembered before it was pipelined
+	task.ResourceClaimInfo = previousResourceClaimInfo.Clone()
 
 	return nil
 }
